@@ -69,6 +69,22 @@ using SymEngine::vec_boolean;
 
 #include "symengine/parser/sbml/sbml_tokenizer.h"
 
+namespace
+{
+
+// Operands of the logical operators must be Boolean: a static cast of
+// anything else (e.g. the Symbol in "~x" or "x | y") is undefined behaviour.
+RCP<const Boolean> as_boolean(const RCP<const Basic> &b)
+{
+    if (!SymEngine::is_a_Boolean(*b)) {
+        throw SymEngine::ParseError(
+            "Boolean operator received non-boolean arguments");
+    }
+    return rcp_static_cast<const Boolean>(b);
+}
+
+} // namespace
+
 namespace sbml
 {
 
@@ -805,8 +821,8 @@ namespace sbml {
 #line 94 "sbml_parser.yy"
                    {
             set_boolean s;
-            s.insert(rcp_static_cast<const Boolean>(yystack_[2].value.as < SymEngine::RCP<const SymEngine::Basic> > ()));
-            s.insert(rcp_static_cast<const Boolean>(yystack_[0].value.as < SymEngine::RCP<const SymEngine::Basic> > ()));
+            s.insert(as_boolean(yystack_[2].value.as < SymEngine::RCP<const SymEngine::Basic> > ()));
+            s.insert(as_boolean(yystack_[0].value.as < SymEngine::RCP<const SymEngine::Basic> > ()));
             yylhs.value.as < SymEngine::RCP<const SymEngine::Basic> > () = logical_or(s); }
 #line 812 "sbml_parser.tab.cc"
     break;
@@ -815,8 +831,8 @@ namespace sbml {
 #line 99 "sbml_parser.yy"
                     {
             set_boolean s;
-            s.insert(rcp_static_cast<const Boolean>(yystack_[2].value.as < SymEngine::RCP<const SymEngine::Basic> > ()));
-            s.insert(rcp_static_cast<const Boolean>(yystack_[0].value.as < SymEngine::RCP<const SymEngine::Basic> > ()));
+            s.insert(as_boolean(yystack_[2].value.as < SymEngine::RCP<const SymEngine::Basic> > ()));
+            s.insert(as_boolean(yystack_[0].value.as < SymEngine::RCP<const SymEngine::Basic> > ()));
             yylhs.value.as < SymEngine::RCP<const SymEngine::Basic> > () = logical_and(s); }
 #line 822 "sbml_parser.tab.cc"
     break;
@@ -842,7 +858,7 @@ namespace sbml {
   case 20: // expr: '!' expr
 #line 107 "sbml_parser.yy"
                {
-            yylhs.value.as < SymEngine::RCP<const SymEngine::Basic> > () = logical_not(rcp_static_cast<const Boolean>(yystack_[0].value.as < SymEngine::RCP<const SymEngine::Basic> > ())); }
+            yylhs.value.as < SymEngine::RCP<const SymEngine::Basic> > () = logical_not(as_boolean(yystack_[0].value.as < SymEngine::RCP<const SymEngine::Basic> > ())); }
 #line 847 "sbml_parser.tab.cc"
     break;
 
